@@ -163,10 +163,23 @@ class Property(css_parser.util.Base):
                                 self._valuestr(cssText), colontoken)
 
             if wellformed:
-                self.wellformed = True
-                self.name = nametokens
-                self.propertyValue = valuetokens
-                self.priority = prioritytokens
+                # parse into a scratch property: each setter may raise and
+                # a rejected text must leave this property as it was
+                new = Property(_mediaQuery=self._mediaQuery, parent=self.parent)
+                new.wellformed = True
+                new.name = nametokens
+                new.propertyValue = valuetokens
+                new.priority = prioritytokens
+                new.seqs[1].parent = self
+
+                # commit
+                self.wellformed = new.wellformed
+                self.__nametoken = new.__nametoken
+                self._name = new._name
+                self._literalname = new._literalname
+                self._priority = new._priority
+                self._literalpriority = new._literalpriority
+                self.seqs = new.seqs
 
                 # also invalid values are set!
 
